@@ -677,6 +677,36 @@ func run(args []string) error {
 					inject([]coin.Transaction{mk(0, fa), mk(1, fb), mk(2, fc)}, "chain3")
 					forceDefault = true
 				}
+			} else if (first && round == 1) || (!first && round == 0) || (round > 1 && r.Chance(6)) {
+				// scripted family: 16-40 transactions of identical shape (1 input, 1 output: same
+				// size) in 3 fee tiers => many exact fee-per-kB ties, incl. equal-fee conflicting
+				// pairs. More than 12 elements: sort.Sort leaves insertion sort for quick/heap sort.
+				tiers := []uint64{100, 70, 50}
+				n := 16 + r.Intn(25)
+				var ts []coin.Transaction
+				for tries := 0; len(ts) < n && tries < 600; tries++ {
+					ux, ok := g.pickFresh(false)
+					if !ok {
+						break
+					}
+					hh := nk.HoursAt(ux, g.headT)
+					if hh < 100 || hh > 1000 {
+						continue
+					}
+					g.forceFee = 100
+					if hh <= 500 {
+						g.forceFee = tiers[r.Intn(len(tiers))]
+					}
+					ts = append(ts, g.spend(coin.UxArray{ux}, "force", 1))
+					if r.Chance(25) { // same input, same fee, same size: only the hash decides
+						ts = append(ts, g.spend(coin.UxArray{ux}, "force", 1))
+					}
+				}
+				if len(ts) > 0 {
+					inject(ts, "fee-tiers")
+					hist.Add(fmt.Sprintf("fee-tier-pool:%02d+", len(ts)/8*8))
+					forceDefault = r.Chance(60)
+				}
 			} else {
 				k := 1 + r.Intn(5)
 				if r.Chance(15) {
